@@ -512,4 +512,27 @@ theorem put_nodup (lt : Key → Key → Bool) (d : List (Key × V)) (k : Key) (v
     simp only [List.map_cons, List.nodup_cons]
     exact ⟨hk, hnd⟩
 
+/-! ### the executable comparisons used by the driver equal the numeric ones on keys of one width -/
+
+theorem ltUnsigned_eq_fast (a b : Key) (h : a.length = b.length) : ltUnsigned a b = ltUnsignedFast a b := by
+  have := lexLt_iff_bitsToNat a b h
+  unfold ltUnsignedFast
+  cases hl : lexLt a b
+  · simp only [ltUnsigned, decide_eq_false_iff_not]; intro h2; rw [this.mpr h2] at hl; cases hl
+  · simp only [ltUnsigned, decide_eq_true_eq]; exact this.mp hl
+
+theorem ltSigned_eq_fast : ∀ (a b : Key), a.length = b.length → ltSigned a b = ltSignedFast a b
+  | [], [], _ => by simp [ltSigned, ltSignedFast, bitsToInt]
+  | [], _ :: _, h => by simp at h
+  | _ :: _, [], h => by simp at h
+  | x :: a, y :: b, hl => by
+    have hl' : a.length = b.length := by simpa using hl
+    have ha := bitsToNat_lt a
+    have hb := bitsToNat_lt b
+    rw [hl'] at ha
+    have hlex := lexLt_iff_bitsToNat a b hl'
+    have hpow : (2 ^ b.length : Int) = ((2 ^ b.length : Nat) : Int) := by norm_cast
+    cases hlx : lexLt a b <;> cases x <;> cases y <;>
+      simp [ltSigned, ltSignedFast, bitsToInt, hl', hlx] <;> simp [hlx] at hlex <;> omega
+
 end Tongo.Hashmap
